@@ -87,7 +87,7 @@ def ulp_close(x, q, ulps=4):
     return abs(fx - q) <= ulps * u
 
 
-def value_matches(m, v, ulps=4, rel=0.0):
+def value_matches(m, v, ulps=4, rel=0.0, loose=False):
     """does the model value (parsed sexp) describe the Python value?
     returns True / False / None (None = the model does not model this value: `(o …)`)"""
     error = _xlerror()
@@ -99,6 +99,10 @@ def value_matches(m, v, ulps=4, rel=0.0):
         return False
     k = m[0]
     if k == 'i':
+        if loose and isinstance(v, bool):
+            # a logical item handed back by an aggregate (max([True]) is True): the aggregate models carry
+            # logicals by their integer value
+            return int(v) == int(m[1])
         return isinstance(v, int) and not isinstance(v, bool) and v == int(m[1])
     if k == 'f':
         q = Fraction(int(m[1]), int(m[2]))
@@ -121,11 +125,14 @@ def value_matches(m, v, ulps=4, rel=0.0):
         # double arithmetic on serials: ~2^-50 relative error on the microsecond count
         return abs(us - int(m[1])) <= 2 + abs(us) // (1 << 49)
     if k == 'a':
+        if len(m) == 4 and m[1] == ['o', 'complex'] and isinstance(v, complex):
+            # a Python complex number is modelled as the triple (complex, re, im)
+            return value_matches(m[2], float(v.real), ulps, rel) and value_matches(m[3], float(v.imag), ulps, rel)
         if not isinstance(v, list) or len(v) != len(m) - 1:
             return False
         res = True
         for mm, vv in zip(m[1:], v):
-            r = value_matches(mm, vv, ulps, rel)
+            r = value_matches(mm, vv, ulps, rel, loose)
             if r is False:
                 return False
             if r is None:
@@ -134,7 +141,7 @@ def value_matches(m, v, ulps=4, rel=0.0):
     return False
 
 
-def record_matches(model_rec, rec, ulps=4, rel=0.0):
+def record_matches(model_rec, rec, ulps=4, rel=0.0, loose=False):
     """model `(rec <value|none> <errtag|none>)` vs the dict returned by Parser.parse"""
     if not (isinstance(model_rec, list) and len(model_rec) == 3 and model_rec[0] == 'rec'):
         return False
@@ -147,7 +154,7 @@ def record_matches(model_rec, rec, ulps=4, rel=0.0):
         return False
     if mres == 'none':
         return rec['result'] is None
-    return value_matches(mres, rec['result'], ulps, rel)
+    return value_matches(mres, rec['result'], ulps, rel, loose)
 
 
 def env_wire(variables=None, fns=None, cells=None, ranges=None):
@@ -326,3 +333,24 @@ def render(t, full=False, levels=None, ctx=0, side=None):
             return s
         return sub(l, False) + op + sub(r, True)
     raise ValueError(t)
+
+
+# aggregate builtins whose models carry logical items by their integer value (Python's statistics / max / min /
+# reduce hand a lone logical back as a logical, and statistics coerces all-logical data back to bool): formulas
+# in which a logical reaches one of them are outside the value-level model comparison
+AGGREGATES = {'SUM', 'PRODUCT', 'AVERAGE', 'AVERAGEA', 'AVEDEV', 'MIN', 'MAX', 'MINA', 'MAXA', 'MEDIAN', 'MODE', 'MODE.SNGL',
+              'VAR', 'VAR.S', 'VAR.P', 'VARP', 'VARA', 'STDEV', 'STDEV.S', 'STDEV.P', 'STDEVP', 'STDEVA', 'STDEVPA', 'HARMEAN',
+              'GEOMEAN', 'LARGE', 'SLOPE', 'SUMIF', 'SUMIFS', 'AVERAGEIF', 'AVERAGEIFS', 'MAXIFS', 'COUNTIF'}
+
+
+def has_logical(v):
+    if isinstance(v, bool):
+        return True
+    if isinstance(v, (list, tuple)):
+        return any(has_logical(x) for x in v)
+    return False
+
+
+def logical_reaches_aggregate(fn_events):
+    """fn_events: iterable of (name, args) of the callFunction events of an evaluation"""
+    return any(name in AGGREGATES and name != 'SUM' and has_logical(args) for name, args in fn_events)
